@@ -41,6 +41,11 @@ type Obs11 struct {
 	Rendered [][]string `json:"rendered"` // instances whose probe template was rendered
 	Seen     []Seen     `json:"seen"`
 	Stray    []string   `json:"stray"` // rendered paths that belong to no known file
+	// run D: engine.Render alone, on the processed chart with the RAW user values (nothing coalesced, so a subchart
+	// has a values table only if the user wrote one): what the engine's own scoping hands to each chart
+	DOk     bool   `json:"dok"`
+	DErr    string `json:"derr"`
+	SeenRaw []Seen `json:"seenraw"`
 	// run B: action.Install as `helm template --include-crds` does it
 	BOk       bool       `json:"bok"`
 	BErr      string     `json:"berr"`
@@ -146,7 +151,7 @@ func catch(err *string) {
 
 // Run11 runs one C11 case on the real code.
 func Run11(cf CaseFile, tmp string) Obs11 {
-	o := Obs11{ID: cf.ID, Shape: cf.Shape, Case: cf.Case, Rendered: [][]string{}, Seen: []Seen{}, Stray: []string{},
+	o := Obs11{ID: cf.ID, Shape: cf.Shape, Case: cf.Case, Rendered: [][]string{}, Seen: []Seen{}, SeenRaw: []Seen{}, Stray: []string{},
 		Named: []string{}, Manifest: [][]string{}, Hooks: [][]string{}, Notes: [][]string{}, Crds: [][]string{},
 		ICrds: [][]string{}, IManifest: [][]string{}, Ups: []UpObs{}}
 	var c Case
@@ -156,6 +161,7 @@ func Run11(cf CaseFile, tmp string) Obs11 {
 		return o
 	}
 	runA(&c, tmp, &o)
+	runD(&c, tmp, &o)
 	runB(&c, tmp, &o)
 	if cf.Hist {
 		o.Hist = true
@@ -211,6 +217,48 @@ func runA(c *Case, tmp string, o *Obs11) {
 	}
 	o.Rendered = instList(rendered)
 	o.AOk = true
+}
+
+func runD(c *Case, tmp string, o *Obs11) {
+	defer catch(&o.DErr)
+	vals, err := c.UserValues(tmp)
+	if err != nil {
+		o.DErr = "values: " + err.Error()
+		return
+	}
+	ch, err := c.Load(BuildOpts{})
+	if err != nil {
+		o.DErr = "load: " + err.Error()
+		return
+	}
+	if err := chartutil.ProcessDependencies(ch, vals); err != nil {
+		o.DErr = "ProcessDependencies: " + err.Error()
+		return
+	}
+	top := chartutil.Values{
+		"Chart":        ch.Metadata,
+		"Capabilities": chartutil.DefaultCapabilities,
+		"Release":      map[string]interface{}{"Name": "rel", "Namespace": "default", "IsInstall": true, "IsUpgrade": false, "Revision": 1, "Service": "Helm"},
+		"Values":       chartutil.Values(vals),
+	}
+	files, err := engine.Render(ch, top)
+	if err != nil {
+		o.DErr = "Render: " + err.Error()
+		return
+	}
+	for path, doc := range files {
+		inst, kind, ok := instOf(path)
+		if !ok || kind != "probe" {
+			continue
+		}
+		v, err := probeValues(doc)
+		if err != nil {
+			o.DErr = "probe of " + path + ": " + err.Error()
+			return
+		}
+		o.SeenRaw = append(o.SeenRaw, Seen{P: splitInst(inst), Leaves: Flatten(v)})
+	}
+	o.DOk = true
 }
 
 var sourceRe = regexp.MustCompile(`(?m)^# Source: (\S+)$`)
